@@ -48,23 +48,24 @@ def run(ctx):
     ctx.extra["container_variants"] = sorted({t[0]["variant"] for t in maps})
     ctx.extra["harness_summary"] = out.strip().split("\n")[-1][:200]
     ctx.assumptions += [
-        "hash route: the hash of a key is read through the public remap.XXHash; the contract judges "
-        "XHashIndex/SimpleIndex as a lookup of that hash in the partition",
-        "modulo route: non-negative integer keys and HitGroup keys must get key mod shards; for negative "
-        "integers the property (and the spec) only asks for range and stability",
-        "exact boundary positions are left open; shard counts above 32767 are not exercised "
-        "(32-bit arithmetic of TLC in LimbsMod)",
+        "the contract is the property by the letter: keyed routes (SimpleIndex / XHashIndex) are judged on "
+        "totality (no panic), range and stability (same key, same shard count -> same index, also across "
+        "ReMap instances); which in-range shard a key gets, and where the partition boundaries lie, is open",
+        "the hash partition (SearchIndex) is judged on order-compatibility of all (hash, index) observations "
+        "of a trace, which Shard_MC_route shows to be exactly 'some partition into n consecutive intervals'",
+        "equal []byte keys = equal contents; HitGroup-only keys are not sent through the xxhash route "
+        "(remap.ToBytes does not support them); shard count 0 is outside the property",
         "wide LRU facades run with a capacity no history reaches (capacity per shard is C04's subject); "
         "sharded key lockers / semaphore maps are exercised in C02 / C01",
     ]
     return ctx.finish(
-        rule="routing: per shard count (fixed list 1,2,3,4,5,64,73,211,255,256,1000,4096,10007,32767 + default "
+        rule="routing: per shard count (fixed list 1,2,3,4,5,64,73,211,255,256,1000,4096,10007,65535,65536,100003 + default "
              "+ seeded random) boundary-biased hashes (0, Max, powers of two, ideal boundaries -1/0/+1, random) "
              "through SearchIndex, the same patterns cast to all ten integer types, HitGroup/Bs implementers, "
-             "strings / byte slices (empty, block-size, binary) through SimpleIndex and XHashIndex, a quarter asked "
-             "twice, some through a fresh ReMap; containers: plans = TLC simulation of Shard.tla (distinct by "
+             "strings / byte slices (empty, block-size, binary) through SimpleIndex and XHashIndex, half asked "
+             "twice, a quarter of all calls through a fresh ReMap; containers: plans = TLC simulation of Shard.tla (distinct by "
              "content) under 10 concrete key schemes x variants, + seeded random histories over mixed-type keys",
         explanation="ShardAlg.tla (NewReMap table, sort.Search bisection, clamp, modulo) model-checked for all "
                     "n<=256 and all 8-bit hashes against the contract of Shard.tla; every index returned by the real "
-                    "remap must satisfy the same contract (range, stability, k mod n, order-compatibility of all "
-                    "(hash,index) observations); every reply of the real sharded containers must equal the plain map's")
+                    "remap must satisfy the same contract (range, stability per key, order-compatibility of all "
+                    "(hash,index) observations of SearchIndex); every reply of the real sharded containers must equal the plain map's")
